@@ -28,6 +28,9 @@ func (d *NonPreemptive) Choose(s *Sched, cur *Thread, why Why) *Thread {
 type Change struct {
 	Thread int `json:"t"`
 	Step   int `json:"k"`
+	// Kind > 0: the change point is the Step-th scheduling point OF THAT KIND (e.g. the first
+	// Cond.Wait) instead of the Step-th point overall.
+	Kind int `json:"kind,omitempty"`
 }
 
 // PCT is the explicit priority-based decider. Prio[i] is the initial priority
@@ -62,7 +65,16 @@ func (d *PCT) Choose(s *Sched, cur *Thread, why Why) *Thread {
 		switch why {
 		case AtPoint:
 			for _, c := range d.Changes {
-				if c.Thread == cur.ID && c.Step == cur.Steps {
+				if c.Thread != cur.ID {
+					continue
+				}
+				hit := false
+				if c.Kind > 0 {
+					hit = int(cur.LastKind) == c.Kind && c.Kind < len(cur.KindCount) && cur.KindCount[c.Kind] == c.Step
+				} else {
+					hit = c.Step == cur.Steps
+				}
+				if hit {
 					cur.Prio = d.low
 					d.low--
 					break
